@@ -152,11 +152,93 @@ def fs4(P, C):
          "the filling pass stops after naux entries even if the header changes between passes: %s" % cond)
 
 
+def _parse_predicate_table(f):
+    """the table-driven form of the predicate: a constant array of {name, length} entries, a loop over it that returns true when
+    strncmp(entry.name, key, entry.length) == 0 for entries with a non-zero length and when strcmp(entry.name, key) == 0 for the others,
+    and `return false` after the loop.  Returns the same list as parse_predicate, or None if the function does not have this form."""
+    key_id = f.params[0]["id"]
+    tables = []
+    for i in f.walk():
+        if f.k(i) != "DeclStmt":
+            continue
+        for d in f.nodes[i]["decls"]:
+            init = f.strip(d.get("init", -1)) if d.get("init", -1) >= 0 else -1
+            if init < 0 or f.k(init) != "InitListExpr":
+                continue
+            rows = []
+            for r in f.ch(init):
+                r = f.strip(r)
+                if f.k(r) != "InitListExpr":
+                    rows = None
+                    break
+                cells = [f.strip(c) for c in f.ch(r)]
+                strs = [f.nodes[c]["v"] for c in cells if f.k(c) == "StringLiteral"]
+                ints = [f.nodes[c].get("cv", f.nodes[c].get("v")) for c in cells if f.k(c) != "StringLiteral" and f.nodes[c].get("cv", f.nodes[c].get("v")) is not None]
+                if len(strs) != 1 or len(ints) != 1:
+                    rows = None
+                    break
+                rows.append((strs[0], ints[0]))
+            if rows:
+                tables.append(rows)
+    if len(tables) != 1:
+        return None
+    calls = {}
+    for c, cal in f.calls():
+        if cal and cal["name"] in ("strncmp", "strcmp"):
+            a = f.args(c)
+            if any(f.k(f.strip(x)) == "DeclRefExpr" and f.nodes[f.strip(x)]["decl"].get("id") == key_id for x in a[:2]) and \
+                    any(f.k(f.strip(x)) == "MemberExpr" for x in a[:2]):
+                calls.setdefault(cal["name"], []).append(c)
+    rets = [r for r in f.walk() if f.k(r) == "ReturnStmt" and f.ch(r)]
+    trues = [r for r in rets if f.nodes[f.strip(f.ch(r)[0])].get("cv", f.nodes[f.strip(f.ch(r)[0])].get("v")) in (1, True)]
+    falses = [r for r in rets if f.nodes[f.strip(f.ch(r)[0])].get("cv", f.nodes[f.strip(f.ch(r)[0])].get("v")) in (0, False)]
+    loops = [x for x in f.walk() if f.k(x) in ("CXXForRangeStmt", "ForStmt")]
+    if len(loops) != 1 or len(falses) != 1 or falses[0] in set(f.walk(loops[0])) or not trues or not all(t in set(f.walk(loops[0])) for t in trues):
+        return None
+    from .dp import path_facts
+    has_prefix = has_exact = False
+    for nm, cs in calls.items():
+        for c in cs:
+            # the call is compared with 0 and the true arm returns true
+            p_ = f.parent[c]
+            while p_ >= 0 and f.k(p_) in core.TRANSPARENT:
+                p_ = f.parent[p_]
+            if p_ < 0 or f.k(p_) != "BinaryOperator" or f.nodes[p_].get("op") != "==":
+                return None
+            g = next((a for a in f.ancestors(p_) if f.k(a) == "IfStmt" and f.strip(f.nodes[a]["cond"]) == p_), None)
+            if g is None or not any(t in set(f.walk(f.nodes[g]["then"])) for t in trues):
+                return None
+            facts = path_facts(f, g)
+            lens = [(a, op, b) for (a, op, b) in facts if "ength" in a or "len" in a.lower() or "ength" in b or "len" in b.lower() or a.endswith((".n", ".size")) or b.endswith((".n", ".size"))]
+            if nm == "strncmp":
+                if not any(op == "!=" and "0" in (a, b) for (a, op, b) in lens) and not any(op in (">", "<") for (a, op, b) in lens):
+                    return None
+                has_prefix = True
+            else:
+                if not any(op == "==" and "0" in (a, b) for (a, op, b) in lens):
+                    return None
+                has_exact = True
+    out = []
+    for (nm, n_) in tables[0]:
+        if n_:
+            if not has_prefix:
+                return None
+            out.append(("prefix", nm, n_))
+        else:
+            if not has_exact:
+                return None
+            out.append(("exact", nm, None))
+    return out
+
+
 def parse_predicate(P):
     """reservedFitsKeyword -> list of (kind, literal, n): kind 'prefix' (strncmp(LIT,key,n)==0) or 'exact' (strcmp(LIT,key)==0)."""
     f = P.one("reservedFitsKeyword")
     rets = [i for i in f.walk() if f.k(i) == "ReturnStmt"]
     if len(rets) != 1:
+        tab = _parse_predicate_table(f)
+        if tab is not None:
+            return f, tab
         raise core.AnalysisBroken("reservedFitsKeyword: expected a single return")
     conn, leaves = core.cond_leaves(f, f.nodes[rets[0]]["value"])
     if conn not in ("||", "leaf"):
